@@ -3,6 +3,7 @@ package mapper
 import (
 	"fmt"
 	"go/ast"
+	"go/token"
 	"go/types"
 
 	"github.com/lopolopen/shoot/internal/shoot"
@@ -261,6 +262,11 @@ func extractFromCompositeLit(cl *ast.CompositeLit, prefix string, out map[string
 			}
 		case *ast.CompositeLit:
 			extractFromCompositeLit(v, path, out)
+		case *ast.UnaryExpr:
+			//&T{...}
+			if cl, ok := v.X.(*ast.CompositeLit); ok && v.Op == token.AND {
+				extractFromCompositeLit(cl, path, out)
+			}
 		}
 	}
 }
